@@ -32,6 +32,11 @@ func BlockedOnMutex(dump string, under ...string) string {
 		if !strings.Contains(g, "github.com/tigerwill90/fox.") {
 			continue
 		}
+		// the goroutine under test is always started by Completes; anything else (e.g. the deliberately parked
+		// writer) is not evidence
+		if !strings.Contains(g, "kit.Completes") {
+			continue
+		}
 		for _, u := range under {
 			if strings.Contains(g, u) {
 				return g
